@@ -18,35 +18,37 @@ structure ViewSame (w w' : World) : Prop where
   size : w'.procs.size = w.procs.size
   view : ∀ pl, poolView w' pl = poolView w pl
   held : ∀ q pl, HoldRef.pool pl ∈ (w'.proc q).held ↔ HoldRef.pool pl ∈ (w.proc q).held
+  prio : prOf w' = prOf w
 
-theorem ViewSame.of_fp {m : Mask} {w w' : World} (h : Fp m w w') (hp : m.pools = false) (hh : m.held = false) :
-    ViewSame w w' :=
-  ⟨h.2.2.2.2.2.2.2.1, poolView_of_fp h hp, fun q pl => by rw [h.2.2.2.2.2.2.2.2.1 hh q]⟩
+theorem ViewSame.of_fp {m : Mask} {w w' : World} (h : Fp m w w') (hp : m.pools = false) (hh : m.held = false)
+    (hpr : m.prio = false := by rfl) : ViewSame w w' :=
+  ⟨h.2.2.2.2.2.2.2.1, poolView_of_fp h hp, fun q pl => by rw [h.2.2.2.2.2.2.2.2.1 hh q], prOf_of_fp h hpr⟩
 
 theorem ViewSame.of_same {w w' : World} (h : Same w w') : ViewSame w w' :=
-  ViewSame.of_fp (Same.fp {} h) rfl rfl
+  ViewSame.of_fp (Same.fp {} h) rfl rfl rfl
 
 theorem ViewSame.upd {w w' : World} (h : ViewSame w w') {pl : Nat} {v : PView} (hv : poolView w pl = some v) :
     PoolUpd w w' pl v :=
-  ⟨h.size, by rw [h.view]; exact hv, fun pl' _ => h.view pl', fun q pl' _ => h.held q pl'⟩
+  ⟨h.size, by rw [h.view]; exact hv, fun pl' _ => h.view pl', fun q pl' _ => h.held q pl', h.prio⟩
 
 theorem ViewSame.linked {w w' : World} (h : ViewSame w w') {pl : Nat} {hh : HH} (lk : Linked w pl hh) : Linked w' pl hh :=
   fun q => (h.held q pl).trans (lk q)
 
 theorem ViewSame.trans {a b c : World} (h1 : ViewSame a b) (h2 : ViewSame b c) : ViewSame a c :=
-  ⟨h2.size.trans h1.size, fun pl => (h2.view pl).trans (h1.view pl), fun q pl => (h2.held q pl).trans (h1.held q pl)⟩
+  ⟨h2.size.trans h1.size, fun pl => (h2.view pl).trans (h1.view pl), fun q pl => (h2.held q pl).trans (h1.held q pl),
+    h2.prio.trans h1.prio⟩
 
 theorem PoolInv.of_viewSame {w w' : World} (h : ViewSame w w') (hi : PoolInv w) : PoolInv w' := by
   refine ⟨by rw [h.size]; exact hi.1, ?_⟩
   intro pl v hpv
   rw [h.view] at hpv
   obtain ⟨ok, lk⟩ := hi.2 pl v hpv
-  rw [h.size]
+  rw [h.size, h.prio]
   exact ⟨ok, h.linked lk⟩
 
 theorem recordPool_viewSame (w : World) (a : Nat) : ViewSame w (recordPool w a) := by
   have hf := recordPool_fp w a
-  refine ⟨hf.2.2.2.2.2.2.2.1, ?_, fun q pl => by rw [hf.2.2.2.2.2.2.2.2.1 rfl q]⟩
+  refine ⟨hf.2.2.2.2.2.2.2.1, ?_, fun q pl => by rw [hf.2.2.2.2.2.2.2.2.1 rfl q], prOf_of_fp hf rfl⟩
   intro pl
   unfold recordPool
   split
@@ -67,7 +69,7 @@ theorem setPoolInUse_upd {w : World} {pl : Nat} {v : PView} (hv : poolView w pl 
     ∀ q, ((setPoolInUse w pl u).proc q).held = (w.proc q).held := by
   obtain ⟨x, hx, rfl⟩ := poolView_some.1 hv
   have hf := setPoolInUse_fp w pl u
-  refine ⟨⟨hf.2.2.2.2.2.2.2.1, ?_, ?_, ?_⟩, hf.2.2.2.2.2.2.2.2.1 rfl⟩
+  refine ⟨⟨hf.2.2.2.2.2.2.2.1, ?_, ?_, ?_, prOf_of_fp hf rfl⟩, hf.2.2.2.2.2.2.2.2.1 rfl⟩
   · unfold setPoolInUse poolView
     show ((w.pools.modify pl _)[pl]?).map Pool.view = _
     rw [poolView_modify, if_pos rfl, hx]; rfl
@@ -80,7 +82,7 @@ theorem setPoolInUse_upd {w : World} {pl : Nat} {v : PView} (hv : poolView w pl 
 /-- the holder list of pool `pl` is replaced (raw record update as written in the model) -/
 theorem setHolders_upd {w : World} {pl : Nat} {x : Pool} (hx : w.pools[pl]? = some x) (h' : HH) :
     PoolUpd w { w with pools := w.pools.set! pl { x with holders := h' } } pl ⟨x.cap, x.inUse, h'⟩ := by
-  refine ⟨rfl, ?_, ?_, fun _ _ _ => Iff.rfl⟩
+  refine ⟨rfl, ?_, ?_, fun _ _ _ => Iff.rfl, rfl⟩
   · unfold poolView
     show ((w.pools.set! pl _)[pl]?).map Pool.view = _
     rw [poolView_set hx, if_pos rfl]; rfl
@@ -121,10 +123,10 @@ theorem poolUpdateRecord_absent {w : World} {pl : Nat} {x : Pool} (hx : w.pools[
 
 /-- `update_record`: the caller's record grows by `amt`, or is created with `amt` -/
 theorem poolUpdateRecord_upd {w : World} {pl : Nat} {v : PView} (hv : poolView w pl = some v)
-    (ok : HoldersOK w.procs.size v.holders) (hn : w.procs.size < 2 ^ 31) {p : Pid} (hp : p < w.procs.size)
+    (ok : HoldersOK w.procs.size (prOf w) v.holders) (hn : w.procs.size < 2 ^ 31) {p : Pid} (hp : p < w.procs.size)
     (lk : Linked w pl v.holders) (amt : Nat) (hamt : 0 < amt) :
     ∃ h', PoolUpd w (poolUpdateRecord w pl p amt) pl ⟨v.cap, v.inUse, h'⟩ ∧
-      HoldersOK w.procs.size h' ∧ Linked (poolUpdateRecord w pl p amt) pl h' ∧
+      HoldersOK w.procs.size (prOf w) h' ∧ Linked (poolUpdateRecord w pl p amt) pl h' ∧
       amounts (abs h') = amounts (abs v.holders) + amt ∧
       amountOf (abs h') (p + 1) = amountOf (abs v.holders) (p + 1) + amt ∧
       (∀ k, k ≠ p + 1 → amountOf (abs h') k = amountOf (abs v.holders) k) := by
@@ -153,6 +155,7 @@ theorem poolUpdateRecord_upd {w : World} {pl : Nat} {v : PView} (hv : poolView w
       · exact Or.inr (HashHeap.findIndex_of_not_mem ok.wf hk))]
     obtain ⟨h', hrun, ok', hsum, hkeys, hamt', hoth⟩ := enqueue_holders ok hn hp hk ⟨p + 1, amt, 0, 0⟩ hamt 0
       ((w.modProc p fun y => { y with held := .pool pl :: y.held }).proc p).prio
+      (show _ = (w.proc p).prio from modProc_prio w p p _ (fun _ => rfl))
     rw [hrun]
     dsimp only
     have hx' : (w.modProc p fun y => { y with held := HoldRef.pool pl :: y.held }).pools[pl]? = some x := hx
@@ -164,7 +167,7 @@ theorem poolUpdateRecord_upd {w : World} {pl : Nat} {v : PView} (hv : poolView w
       by_cases hq : q = p
       · subst hq; simp [hp]
       · simp [hq]
-    refine ⟨h', ⟨hu.size.trans (modProc_size _ _ _), hu.view, hu.others, ?_⟩, ok', ?_, ?_, ?_, hoth⟩
+    refine ⟨h', ⟨hu.size.trans (modProc_size _ _ _), hu.view, hu.others, ?_, ?_⟩, ok', ?_, ?_, ?_, hoth⟩
     · intro q pl' hne
       refine (hu.heldOthers q pl' hne).trans ?_
       rw [proc_modProc]
@@ -173,6 +176,7 @@ theorem poolUpdateRecord_upd {w : World} {pl : Nat} {v : PView} (hv : poolView w
         have : HoldRef.pool pl' ≠ HoldRef.pool pl := fun e => hne (by injection e)
         simp [this]
       · rfl
+    · exact hu.prio.trans (funext fun q => modProc_prio w p q _ (fun _ => rfl))
     · intro q
       show HoldRef.pool pl ∈ ((w.modProc p _).proc q).held ↔ _
       rw [hheld, hkeys, lk q]
@@ -200,7 +204,7 @@ theorem setHeldAmount_present {w : World} {pl : Nat} {x : Pool} (hx : w.pools[pl
 
 structure PSt (w0 w : World) (pl : Nat) (v : PView) : Prop where
   upd : PoolUpd w0 w pl v
-  hok : HoldersOK w0.procs.size v.holders
+  hok : HoldersOK w0.procs.size (prOf w0) v.holders
   lk : Linked w pl v.holders
 
 theorem PSt.init {w : World} {pl : Nat} {v : PView} (hi : PoolInv w) (hv : poolView w pl = some v) : PSt w w pl v :=
@@ -229,9 +233,9 @@ theorem PSt.update {w0 w : World} {pl : Nat} {v : PView} (h : PSt w0 w pl v) (hn
       amountOf (abs h') (p + 1) = amountOf (abs v.holders) (p + 1) + amt ∧
       (∀ k, k ≠ p + 1 → amountOf (abs h') k = amountOf (abs v.holders) k) := by
   have hs := h.size
-  obtain ⟨h', hu, ok', lk', hsum, hamt, hoth⟩ := poolUpdateRecord_upd h.upd.view (by rw [hs]; exact h.hok)
+  obtain ⟨h', hu, ok', lk', hsum, hamt, hoth⟩ := poolUpdateRecord_upd h.upd.view (by rw [hs, h.upd.prio]; exact h.hok)
     (by rw [hs]; exact hn) (by rw [hs]; exact hp) h.lk amt hamt
-  exact ⟨h', ⟨h.upd.trans hu, by rw [← hs]; exact ok', lk'⟩, hsum, hamt, hoth⟩
+  exact ⟨h', ⟨h.upd.trans hu, by rw [← hs, ← h.upd.prio]; exact ok', lk'⟩, hsum, hamt, hoth⟩
 
 theorem PSt.setHeld {w0 w : World} {pl : Nat} {v : PView} (h : PSt w0 w pl v) {p : Pid}
     (hk : p + 1 ∈ keys (abs v.holders)) (a : Nat) (ha : 0 < a) :
@@ -301,11 +305,12 @@ theorem linked_drop {w w' : World} {pl : Nat} {h h' : HH} {p : Pid} (lk : Linked
 /-- replace the holder list, then drop the pool from `p`'s held list -/
 theorem PSt.dropKey {w0 w w1 : World} {pl : Nat} {v : PView} (h : PSt w0 w pl v) {h' : HH} {p : Pid}
     (hu : PoolUpd w w1 pl ⟨v.cap, v.inUse, h'⟩) (hsame : ∀ q, (w1.proc q).held = (w.proc q).held)
-    (ok' : HoldersOK w0.procs.size h')
+    (ok' : HoldersOK w0.procs.size (prOf w0) h')
     (hkeys : ∀ k, k ∈ keys (abs h') ↔ k ∈ keys (abs v.holders) ∧ k ≠ p + 1) :
     PSt w0 (removeHeld w1 p (.pool pl)).1 pl ⟨v.cap, v.inUse, h'⟩ := by
   obtain ⟨hsz, hvw⟩ := removeHeld_viewFacts w1 p (.pool pl)
-  refine ⟨h.upd.trans (hu.trans ⟨hsz, by rw [hvw]; exact hu.view, fun pl' _ => hvw pl', ?_⟩), ok', ?_⟩
+  refine ⟨h.upd.trans (hu.trans ⟨hsz, by rw [hvw]; exact hu.view, fun pl' _ => hvw pl', ?_,
+    prOf_of_fp (removeHeld_fp w1 p (.pool pl)) rfl⟩), ok', ?_⟩
   · intro q pl' hne
     rw [removeHeld_mem]
     constructor
@@ -321,7 +326,7 @@ theorem PSt.dropKey {w0 w w1 : World} {pl : Nat} {v : PView} (h : PSt w0 w pl v)
 /-- same, when nothing has to be dropped from the held list because the key was not there -/
 theorem PSt.dropAbsent {w0 w w1 : World} {pl : Nat} {v : PView} (h : PSt w0 w pl v) {h' : HH} {p : Pid}
     (hu : PoolUpd w w1 pl ⟨v.cap, v.inUse, h'⟩) (hsame : ∀ q, (w1.proc q).held = (w.proc q).held)
-    (ok' : HoldersOK w0.procs.size h')
+    (ok' : HoldersOK w0.procs.size (prOf w0) h')
     (hkeys : ∀ k, k ∈ keys (abs h') ↔ k ∈ keys (abs v.holders) ∧ k ≠ p + 1)
     (habs : p + 1 ∉ keys (abs v.holders)) :
     PSt w0 w1 pl ⟨v.cap, v.inUse, h'⟩ := by
@@ -336,7 +341,7 @@ theorem PSt.dropAbsent {w0 w w1 : World} {pl : Nat} {v : PView} (h : PSt w0 w pl
 theorem modifyHolders_upd {w : World} {pl : Nat} {v : PView} (hv : poolView w pl = some v) (h' : HH) :
     PoolUpd w { w with pools := w.pools.modify pl fun y => { y with holders := h' } } pl ⟨v.cap, v.inUse, h'⟩ := by
   obtain ⟨x, hx, rfl⟩ := poolView_some.1 hv
-  refine ⟨rfl, ?_, ?_, fun _ _ _ => Iff.rfl⟩
+  refine ⟨rfl, ?_, ?_, fun _ _ _ => Iff.rfl, rfl⟩
   · unfold poolView
     show ((w.pools.modify pl _)[pl]?).map Pool.view = _
     rw [poolView_modify, if_pos rfl, hx]; rfl
